@@ -714,17 +714,13 @@ def check(model, rep, tier):
   dp = model.func('malt/pyct/anno.py', 'dup')
   sets = [c for c in core.walk_no_nested(dp.node) if isinstance(c, ast.Call) and
           core.dotted(c.func) == 'setanno']
-  guards = []
+  bad = []
   for c in sets:
-    x = c
-    par = {b: a for a in ast.walk(dp.node) for b in ast.iter_child_nodes(a)}
-    while x in par:
-      y = par[x]
-      if isinstance(y, ast.If):
-        guards.append(y.test)
-      x = y
-  bad = [core.norm(t) for t in guards if not (
-      isinstance(t, ast.Call) and core.dotted(t.func) == 'hasanno')]
+    for pol, t in formula.path_condition(dp.node, c):
+      while isinstance(t, ast.UnaryOp) and isinstance(t.op, ast.Not):
+        t, pol = t.operand, ('F' if pol == 'T' else 'T')
+      if not (pol == 'T' and isinstance(t, ast.Call) and core.dotted(t.func) == 'hasanno'):
+        bad.append('%s[%s]' % (pol, core.norm(t) if isinstance(t, ast.AST) else t))
   rep.check(len(sets) == 1 and not bad, 'ORIG-DEFS', '%s:copies-on-presence' % dp.site,
             'anno.dup must copy an annotation whenever it is present, whatever '
             'its value: an empty DEFINITIONS tuple is a real annotation (a read '
